@@ -241,7 +241,13 @@ def run(rep, tier, rng):
                     lo = mid + 1
                 else:
                     hi = mid
-            rep.violation({"what": "the interpreter process died (abort / stack overflow / out of memory) while evaluating a text",
+            why = C.run_hx([("x", "prog", ["std"] + forms[:2 * (lo + 1)])], timeout=120).get("x", ["?"])
+            why = " ".join(why)
+            if "overflowed its stack" in why or "memory allocation" in why or "T timeout" in why or "not-run" in why:
+                # stack exhaustion by unbounded recursion / expansion, exhausted memory, non-termination: outside the claim
+                rep.extra["texts_ending_in_stack_or_memory_exhaustion"] = rep.extra.get("texts_ending_in_stack_or_memory_exhaustion", 0) + 1
+                continue
+            rep.violation({"what": "the interpreter process died (abort) while evaluating a text", "death": why[-300:],
                            "text": forms[2 * lo] if 2 * lo < len(forms) else None,
                            "earlier_texts_on_the_same_interpreter": [forms[2 * j] for j in range(max(0, lo - 12), lo)],
                            "result": a}); continue
